@@ -53,6 +53,10 @@ pub enum C02Case {
         payload_digest: Option<bool>,
         /// answers of the verifier by call index (true = accept); calls beyond the script are rejected
         answers: Vec<bool>,
+        /// which error a rejecting call returns (by call index; 0 NoSignatureFound,
+        /// 1 KeyNotFoundError, 2 DigestMismatchError, 3 Io, 4 UnsupportedPGPKeyType-like Nom)
+        #[serde(default)]
+        reject_kinds: Vec<u8>,
     },
     /// domain B: signed base package with one bit flipped in the main header or payload;
     /// `fixup` = the attacker also recomputes the (unsigned) digests
@@ -78,6 +82,7 @@ pub enum C02Case {
 #[derive(Debug)]
 struct Recorder {
     answers: Vec<bool>,
+    reject_kinds: Vec<u8>,
     calls: RefCell<Vec<(Vec<u8>, Vec<u8>, bool)>>,
 }
 
@@ -88,11 +93,18 @@ impl rpm::signature::Verifying for Recorder {
         let _ = data.read_to_end(&mut d);
         let mut calls = self.calls.borrow_mut();
         let ans = self.answers.get(calls.len()).copied().unwrap_or(false);
+        let kind = self.reject_kinds.get(calls.len()).copied().unwrap_or(0);
         calls.push((d, signature.to_vec(), ans));
         if ans {
             Ok(())
         } else {
-            Err(rpm::Error::NoSignatureFound)
+            Err(match kind % 5 {
+                0 => rpm::Error::NoSignatureFound,
+                1 => rpm::Error::KeyNotFoundError { key_ref: "0123456789abcdef".into() },
+                2 => rpm::Error::DigestMismatchError,
+                3 => rpm::Error::Io(std::io::Error::new(std::io::ErrorKind::Other, "scripted")),
+                _ => rpm::Error::Nom("scripted rejection".into()),
+            })
         }
     }
     fn algorithm(&self) -> rpm::signature::AlgorithmType {
@@ -236,7 +248,7 @@ impl Property for C02 {
         C02 { bases }
     }
     fn rule(&self) -> String {
-        format!("domain A: hand-encoded packages whose signature header carries any subset of OPENPGP/RSA/DSA/PGP(header+payload) tags, each with right or wrong data type, 0..3 OpenPGP entries (valid base64 of unique blobs, malformed base64, empty), right/wrong digests, verified with a recording verifier scripted with every accept/reject pattern; domain B: {} packages built and signed by the library with EVERY single bit of main header and payload flipped, plain, with attacker-side in-place recomputation of all digests, and with the unsigned signature header rebuilt around the kept signatures (fresh MD5/SHA1/SHA256 added), plus random multi-byte edits, verified with the real pgp verifier. Non-trivial: A = verifier consulted or result Ok; B = the mutant parses and differs from the original; distinct by hash of the package bytes.", self.bases.len())
+        format!("domain A: hand-encoded packages whose signature header carries any subset of OPENPGP/RSA/DSA/PGP(header+payload) tags, each with right or wrong data type, 0..3 OpenPGP entries (valid base64 of unique blobs, malformed base64, empty), right/wrong digests, verified with a recording verifier scripted with every accept/reject pattern and five different error kinds for rejections; domain B: {} packages built and signed by the library with EVERY single bit of main header and payload flipped, plain, with attacker-side in-place recomputation of all digests, and with the unsigned signature header rebuilt around the kept signatures (fresh MD5/SHA1/SHA256 added), plus random multi-byte edits, verified with the real pgp verifier. Non-trivial: A = verifier consulted or result Ok; B = the mutant parses and differs from the original; distinct by hash of the package bytes.", self.bases.len())
     }
     fn assumptions(&self) -> Vec<String> {
         vec!["the converse (a correctly signed package must verify) is not part of the statement and not asserted here (C10 covers it)".into()]
@@ -269,9 +281,9 @@ impl Property for C02 {
                         proptest::option::weighted(0.35, legacy_val()),
                         prop::bool::weighted(0.85),
                         proptest::option::weighted(0.5, prop::bool::weighted(0.85)),
-                        prop_oneof![3 => Just(vec![true; 6]), 2 => proptest::collection::vec(any::<bool>(), 0..5), 1 => proptest::collection::vec(prop::bool::weighted(0.8), 4)],
+                        (prop_oneof![3 => Just(vec![true; 6]), 2 => proptest::collection::vec(any::<bool>(), 0..5), 1 => proptest::collection::vec(prop::bool::weighted(0.8), 4)], proptest::collection::vec(0u8..5, 6)),
                     )
-                        .prop_map(|(payload, openpgp, rsa, dsa, pgp, digests_ok, payload_digest, answers)| C02Case::Recording { payload, openpgp, rsa, dsa, pgp, digests_ok, payload_digest, answers })
+                        .prop_map(|(payload, openpgp, rsa, dsa, pgp, digests_ok, payload_digest, (answers, reject_kinds))| C02Case::Recording { payload, openpgp, rsa, dsa, pgp, digests_ok, payload_digest, answers, reject_kinds })
                         .boxed()
                 }),
             },
@@ -295,7 +307,7 @@ impl Property for C02 {
     fn check(&self, case: &C02Case) -> Outcome {
         let mut o = Outcome::new();
         let r = match case {
-            C02Case::Recording { payload, openpgp, rsa, dsa, pgp, digests_ok, payload_digest, answers } => recording(&mut o, payload, openpgp, rsa, dsa, pgp, *digests_ok, *payload_digest, answers),
+            C02Case::Recording { payload, openpgp, rsa, dsa, pgp, digests_ok, payload_digest, answers, reject_kinds } => recording(&mut o, payload, openpgp, rsa, dsa, pgp, *digests_ok, *payload_digest, answers, reject_kinds),
             C02Case::BitFlip { base, bit, fixup, rebuild_sig } => {
                 let (_, orig, key) = &self.bases[*base as usize % self.bases.len()];
                 let mut m = orig.clone();
@@ -367,7 +379,7 @@ impl C02 {
 }
 
 #[allow(clippy::too_many_arguments)]
-fn recording(o: &mut Outcome, payload: &[u8], openpgp: &Option<SigVal>, rsa: &Option<SigVal>, dsa: &Option<SigVal>, pgp: &Option<SigVal>, digests_ok: bool, payload_digest: Option<bool>, answers: &[bool]) -> Result<(), (String, String)> {
+fn recording(o: &mut Outcome, payload: &[u8], openpgp: &Option<SigVal>, rsa: &Option<SigVal>, dsa: &Option<SigVal>, pgp: &Option<SigVal>, digests_ok: bool, payload_digest: Option<bool>, answers: &[bool], reject_kinds: &[u8]) -> Result<(), (String, String)> {
     o.label("recording");
     let mut main = filepkg::basic_entries("rec");
     if let Some(ok) = payload_digest {
@@ -408,7 +420,7 @@ fn recording(o: &mut Outcome, payload: &[u8], openpgp: &Option<SigVal>, rsa: &Op
     if !all_digests_ok && answers.iter().all(|a| *a) && !answers.is_empty() {
         o.label("all-accepted-but-digest-wrong");
     }
-    let rec = Recorder { answers: answers.to_vec(), calls: RefCell::new(vec![]) };
+    let rec = Recorder { answers: answers.to_vec(), reject_kinds: reject_kinds.to_vec(), calls: RefCell::new(vec![]) };
     let res = match panics::catch(|| p.verify_signature(&rec)) {
         Ok(r) => r,
         Err(_) => {
@@ -432,7 +444,7 @@ fn recording(o: &mut Outcome, payload: &[u8], openpgp: &Option<SigVal>, rsa: &Op
         return Err(("ok-without-verification".into(), "verify_signature returned Ok although the verifier was never consulted".into()));
     }
     if let Some((i, _)) = calls.iter().enumerate().find(|(_, c)| !c.2) {
-        return Err(("ok-despite-rejection".into(), format!("verify_signature returned Ok although the verifier rejected the signature of call #{i}")));
+        return Err(("ok-despite-rejection".into(), format!("verify_signature returned Ok although the verifier rejected the signature of call #{i} (error kind {})", reject_kinds.get(i).copied().unwrap_or(0) % 5)));
     }
     if !all_digests_ok {
         return Err(("ok-despite-digest-mismatch".into(), "verify_signature returned Ok although a recorded digest does not match".into()));
